@@ -282,7 +282,7 @@ def obligations(tier, seed):
 def _basis_size(lib):
     import os
     import yaml
-    p = os.path.join('/repo/pgradd/data', lib, 'uq.yaml')
+    p = os.path.join(__import__('vf.symkit').symkit.REPO, 'pgradd/data', lib, 'uq.yaml')
     if not os.path.exists(p):
         return 0
     try:
